@@ -116,7 +116,11 @@ def oracle_rows(c, res):
     if o["normalize"]:
         norm = sum(Fraction(l["bf"]) for l in lines)
     elif o["scale"] is not None:
+        if not lines or Fraction(o["scale"]) == 0:
+            return ["rows printed although the requested scale is undefined or refused"] if not lines and res else []
         norm = max(Fraction(l["bf"]) for l in lines) / Fraction(o["scale"])
+    if norm == 0:
+        return ["rows printed although the requested normalisation / scale is undefined (zero sum or zero maximum)"]
     for k, i in enumerate(srt):
         l = lines[i]
         fs = " ".join(l["fs"])
@@ -154,6 +158,11 @@ def gen_cases(rng, tier, pdgmap):
                                    ("SVS", None), ("LbAmpGen", [["word", "DtoKpipipi_v1"]]), ("PYTHIA", [["num", "42"]])])
             lines.append({"bf": rng.choice(BFS), "fs": [rng.choice(names) for _ in range(rng.randint(0, 5))],
                           "photos": rng.random() < 0.4, "model": mdl, "params": prm})
+        if nl >= 2 and rng.random() < 0.3:
+            # values that agree to 7 significant digits but are not equal: they are NOT a tie (ordered by value, either way round in the file)
+            a, b = rng.choice([("0.10000001", "0.10000004"), ("0.25000003", "0.25000001"), ("1.0000000e-3", "1.00000004e-3"), ("0.33333331", "0.33333334")])
+            i, j = rng.sample(range(nl), 2)
+            lines[i]["bf"], lines[j]["bf"] = a, b
         evt, pdg = rng.choice(pdgmap)
         stmts = [["Decay", evt, lines]]
         if rng.random() < 0.3:
